@@ -44,3 +44,45 @@ const("pv_unpaid_register_checks_record_key", "ant-node/src/put_validation.rs",
       _unpaid_register_checks_record_key, ty="bool")
 const("pv_payment_checks_quote_content", "ant-node/src/put_validation.rs",
       _payment_checks_quote_content, ty="bool")
+
+
+# ---- which fields Transaction::bytes_to_sign covers (ant-protocol/src/storage/transaction.rs), C07
+def _tx_sign_body(src):
+    body = src.split("pub fn bytes_to_sign(", 1)[1]
+    body = body.split("pub fn address(", 1)[0]
+    # the function must still be a plain sequence of extend_from_slice calls separated by the three literals
+    lits = re.findall(r'bytes\.extend_from_slice\("(\w+)"\.as_bytes\(\)\)', body)
+    if lits != ["parent", "content", "outputs"]:
+        raise ValueError("bytes_to_sign: separator literals changed: %r" % (lits,))
+    if len(re.findall(r"bytes\.extend_from_slice\(", body)) != 7:
+        raise ValueError("bytes_to_sign: unexpected number of appended pieces")
+    return body
+
+
+def _tx_signs(which):
+    def f(src):
+        body = _tx_sign_body(src)
+        head, rest = body.split('"parent"', 1)
+        parents, rest = rest.split('"content"', 1)
+        content, outputs = rest.split('"outputs"', 1)
+        if which == "owner":
+            return bool(re.search(r"bytes\.extend_from_slice\(&owner\.to_bytes\(\)\)", head))
+        if which == "parents":
+            return bool(re.search(r"&parents\s*\.iter\(\)\s*\.map\(\|p\| p\.to_bytes\(\)\)\s*\.collect::<Vec<_>>\(\)\s*\.concat\(\)", parents))
+        if which == "content":
+            return bool(re.search(r"bytes\.extend_from_slice\(content\)", content))
+        both = re.search(r"&outputs\s*\.iter\(\)\s*\.flat_map\(\|\(p, c\)\| \[&p\.to_bytes\(\), c\.as_slice\(\)\]\.concat\(\)\)\s*\.collect::<Vec<_>>\(\)", outputs)
+        keys_only = re.search(r"&outputs\s*\.iter\(\)\s*\.map\(\|\(p, _\)\| p\.to_bytes\(\)\)", outputs)
+        conts_only = re.search(r"&outputs\s*\.iter\(\)\s*\.(?:flat_)?map\(\|\(_, c\)\|", outputs)
+        if not (both or keys_only or conts_only):
+            if re.search(r"outputs", outputs.split("bytes\n", 1)[0]) and "iter()" in outputs:
+                raise ValueError("bytes_to_sign: the way outputs are serialised is not recognised")
+            return False
+        if which == "output_keys":
+            return bool(both or keys_only)
+        return bool(both or conts_only)
+    return f
+
+
+for _w in ("owner", "parents", "content", "output_keys", "output_contents"):
+    const("pv_tx_signs_" + _w, "ant-protocol/src/storage/transaction.rs", _tx_signs(_w), ty="bool")
